@@ -21,6 +21,7 @@ RULE = ('Hypothesis-generated API descriptions (vlib/apigen, hostile mode: unres
         'and their argument/return flags, property and signal flags; plus the shipped tests/scanner/*-expected.gir whose includes '
         'can be satisfied. non-trivial = the GIR has >= 1 non-introspectable element and >= 3 introspectable top-level elements of '
         'different kinds; distinct = hash of the case')
+RULE = RULE + ' ' + 'The comparison also covers the type shape (container kind, array kind, zero-terminated/length/fixed-size, basic tags, written-out element types) of every parameter, return value, field and property; the generator adds twin callables that differ in one annotation detail, property accessor methods and an interface with drawn prerequisites.'
 ASSUMPTIONS = [
     'substrate P (symbol-tree model of the C front end) and substrate C (GLib header shim, system GLib 2.74 at run time)',
     'the independent decoder vlib/typelib.py reads the format as documented in gitypelib-internal.h',
